@@ -551,12 +551,19 @@ def flagsOf (w : World PV PE POp) (ids : List Nat) : Json :=
 
 /-- ids (relative to the first id the statement allocates) of the nodes the harness can look at -/
 def comparable (kind : String) (subjIsAccessor : Bool) : List Nat :=
+  if subjIsAccessor then [] else      -- pipelines through an attribute accessor are rendered with other nodes
   match kind with
   | "lit" | "rootp" | "bind" | "where" => [0]
-  | "op" => if subjIsAccessor then [1] else [0, 1]
+  | "op" => [0, 1]
   | "meth" => [1, 2]
   | "meth2" => [1, 2, 3, 4]
   | _ => []
+
+def allocated (kind : String) : Nat :=
+  match kind with
+  | "lit" | "rootp" | "bind" | "where" => 1
+  | "op" => 2 | "meth" | "attr" => 3 | "meth2" => 5
+  | _ => 0
 
 def runModel (fuel : Nat) : World PV PE POp → List (Stmt PV POp × Json) → List Nat → List Nat → Bool →
     List (Outcome PV PE) × List String × List Json
@@ -568,11 +575,14 @@ def runModel (fuel : Nat) : World PV PE POp → List (Stmt PV POp × Json) → L
     let subj := (raw.getObjValAs? Nat "n").toOption.getD 0
     let base := w.nodes.length
     let created := match o with | .created => true | _ => false
-    let ids1 := if created then ids ++ (comparable kind (accs.contains subj)).map (base + ·) else ids
-    let accs1 := if created && kind == "attr" then accs ++ [base + 2] else accs
-    -- not compared: from an operator applied to an attribute accessor on (this rendering reads the accessor there,
-    -- the code does not), and at an update that raised in a program with holders
-    let quiet := quiet0 || (kind == "op" && accs.contains subj)
+    let ids1 := if created then
+        ids ++ (comparable kind (["op", "meth", "meth2", "attr"].contains kind && accs.contains subj)).map (base + ·)
+      else ids
+    let viaAcc := ["op", "meth", "meth2", "attr"].contains kind && accs.contains subj
+    let accs1 := if created && viaAcc then accs ++ (List.range (allocated kind)).map (base + ·)
+                 else if created && kind == "attr" then accs ++ [base + 2] else accs
+    -- not compared: at an update that raised in a program with holders
+    let quiet := quiet0
     let raisedWithHolders := match o with | .set _ (some _) => !w1.holders.isEmpty | _ => false
     let fl := if quiet || raisedWithHolders then Json.arr #[] else flagsOf w1 ids1
     match o with
